@@ -25,6 +25,17 @@ OPS = [("set", "a", "7"), ("set", "a", "8"), ("rm", "x"), ("set", "x", "5"), ("r
        ("read", "a"), ("mapset", "x", 5), ("mapdel", "x"), ("mapdel", "c"), ("mapset", "c", 1), ("set", "@x", "4"), ("rm", "@x")]
 
 
+# C14: the attribute set the document's mapping API works on is reached through a let-bound name; re-binding that
+# name through the scope mapping must be seen by every later lookup / write of the document mapping
+DOCS14 = {
+    "let-ident": 'let\n  pkg = {\n    a = 1;\n  };\nin\npkg\n',
+    "let-call-arg": 'let\n  pkg = {\n    a = 1;\n  };\nin\nf pkg\n',
+    "lambda-let-ident": '{ lib }:\nlet\n  pkg = {\n    a = 1;\n    k = 0;\n  };\nin\npkg\n',
+}
+OPS14 = [("get", "a"), ("get", "b"), ("get", "c"), ("mapset", "c", 3), ("mapset", "a", 5), ("mapdel", "a"), ("mapdel", "k"),
+         ("scopeset", "pkg", {"b": 2}), ("scopeset", "pkg", {"a": 7, "c": 8}), ("set", "a", "9"), ("rm", "a")]
+
+
 def _do(src, op):
     """Observable result of one operation on a document object: ('ok', text-or-value) / ('exc', type)."""
     from nix_manipulator.cli.manipulations import remove_value, set_value
@@ -40,6 +51,12 @@ def _do(src, op):
             ref = src[op[1]]
             v = ref.value if isinstance(ref, Identifier) else ref
             return ("value", v.rebuild().strip())
+        if kind == "get":
+            v = src[op[1]]
+            return ("value", v.rebuild().strip() if hasattr(v, "rebuild") else repr(v))
+        if kind == "scopeset":
+            src.expr.scope[op[1]] = op[2]
+            return ("ok", src.rebuild())
         if kind == "mapset":
             src[op[1]] = op[2]
             return ("ok", src.rebuild())
@@ -66,7 +83,7 @@ def eval_script(item):
     from nix_manipulator import parse
 
     doc, ops = item
-    text = DOCS[doc]
+    text = ALL_DOCS[doc]
     live = parse(text)
     for k, op in enumerate(ops):
         fresh = parse(text)
@@ -87,17 +104,19 @@ def eval_script(item):
     return None
 
 
-def scripts(tier):
+ALL_DOCS = dict(DOCS, **DOCS14)
+
+
+def scripts(tier, docs=None, alphabet=None):
     n = 3
-    alphabet = OPS if tier == "thorough" else OPS
-    for doc in DOCS:
-        for combo in itertools.product(alphabet, repeat=n):
+    for doc in (docs or DOCS):
+        for combo in itertools.product(alphabet or OPS, repeat=n):
             yield (doc, list(combo))
 
 
 def run(prop, tier, seed):
     t0 = time.time()
-    items = list(scripts(tier))
+    items = list(scripts(tier, DOCS14, OPS14)) if prop == "C14" else list(scripts(tier))
     with mp.get_context("fork").Pool(16) as pool:
         res = pool.map(eval_script, items, chunksize=64)
     vio = {}
@@ -107,16 +126,16 @@ def run(prop, tier, seed):
         sym, k, text, want, got = r
         op = it[1][k]
         # what went before, reduced to the kinds of operations (the defect is in the history, not in the values)
-        hist = ",".join(o[0] + (":" + o[1] if o[0] in ("rm", "mapdel", "mapset") or o[1].startswith("@") else "") for o in it[1][:k])
+        hist = ",".join(o[0] + (":" + o[1] if o[0] in ("rm", "mapdel", "mapset", "scopeset") or o[1].startswith("@") else "") for o in it[1][:k])
         sig = f"{sym}|{it[0]}|after [{hist}]|{op[0]} {op[1]}"
         if sig not in vio:
             vio[sig] = dict(check="live-vs-fresh", signature=sig,
                             what=f"{prop} {sym}: document {it[0]}, history {it[1][:k]}, then {op}: fresh parse gives {want}, live object gives {got}",
                             has_input=True, inputs={"doc": it[0], "ops": it[1]},
-                            failing_input={"inputs": {"text": DOCS[it[0]], "ops": it[1]}, "observed": f"{sym}: {got} instead of {want}",
+                            failing_input={"inputs": {"text": ALL_DOCS[it[0]], "ops": it[1]}, "observed": f"{sym}: {got} instead of {want}",
                                            "origin": "bounded enumeration"})
     return dict(evaluations=len(items), distinct_nontrivial=len(items),
-                rule=(f"history independence: {len(DOCS)} documents with references x all sequences of 3 operations over {len(OPS)} operations (set/rm "
+                rule=(f"history independence: {len(DOCS14 if prop == 'C14' else DOCS)} documents x all sequences of 3 operations over {len(OPS14 if prop == 'C14' else OPS)} operations (set/rm "
                       "through a reference, structural set/rm of the defining and shadowing bindings, scoped set/rm, mapping writes, lookups); after "
                       "each step the live object must answer like a fresh parse of its current text"),
                 samples=[dict(doc=items[i][0], ops=items[i][1]) for i in (0, len(items) // 2, -1)],
@@ -126,7 +145,7 @@ def run(prop, tier, seed):
 def replay(prop, v):
     i = v["inputs"]
     r = eval_script((i["doc"], [tuple(o) for o in i["ops"]]))
-    print(DOCS[i["doc"]], i["ops"], "->", r)
+    print(ALL_DOCS[i["doc"]], i["ops"], "->", r)
     if r:
         print(f"VIOLATION property={prop} replay=<given>")
         return 1
